@@ -1,4 +1,5 @@
 """C15 - round-robin schedulers give each backlogged class its per-visit allowance (RR, WRR, DRR)."""
+from vlib.util import guarded_leg
 import random
 from harness.mq import gen_group, evaluate, cases_from_replay
 from harness.mqoracle import oracle_c15, oracle_c12
@@ -42,6 +43,7 @@ def gen(rng, n):
 
 
 # ---- BEGIN rrk leg: RR as processes on the kernel MODEL (lean/OnlVerif/Net/RROnK.lean, driver mode `rrk`) ----
+@guarded_leg(None)
 def run_rrk(ctx, res=None):
     """Extra leg for Props/C15K.lean: the K program of the RR scheduler (put / send_packet / run + a source process), run at
     Float by the compiled driver, against the real RR with a real source process on the real kernel under env.run() (public API
@@ -228,6 +230,7 @@ def run_rrk(ctx, res=None):
 
 
 # ---- BEGIN wrrk leg: WRR as processes on the kernel MODEL (lean/OnlVerif/Net/WRROnK.lean, driver mode `wrrk`) ----
+@guarded_leg(None)
 def run_wrrk(ctx, res=None):
     """Extra leg for Props/C15KW.lean: the K program of the WRR scheduler (put / send_packet / run + a source process), run at
     Float by the compiled driver, against the real WRR with a real source process on the real kernel under env.run() (public API
@@ -438,6 +441,7 @@ def run_wrrk(ctx, res=None):
 
 
 # ---- BEGIN drrk leg: DRR as processes on the kernel MODEL (lean/OnlVerif/Net/DRROnK.lean, driver mode `drrk`) ----
+@guarded_leg(None)
 def run_drrk(ctx, res=None):
     """Extra leg for Props/C15KD.lean: the K program of the DRR scheduler (put / send_packet / __init__ / run + a source process),
     run at Float by the compiled driver, against the real DRR with a real source process on the real kernel under env.run()
